@@ -261,6 +261,11 @@ func check(c Case, lp *loop) string {
 			return fmt.Sprintf("%s%v = % X: accessor Get%s returns %v, want %v", c.Ctor, []int{c.A, c.B, c.C}, []byte(m), n, acc.vals[n], wantVals)
 		}
 	}
+	// the accessors fill only the arguments that are not nil: every subset of pointers must give
+	// the same answer and the same values
+	if s := partialNil(c, m, name, wantVals); s != "" {
+		return s
+	}
 	// derived views against their definitions
 	var dch, dk, dv uint8
 	isOn := m.GetNoteStart(&dch, &dk, &dv)
@@ -305,7 +310,7 @@ var predecessors = []midi.Message{
 }
 
 var ctors = ev.NewCheck("C07", "constructors",
-	"exhaustive: NoteOn/NoteOff/NoteOffVelocity/PolyAfterTouch/ControlChange over 16x128x128, ProgramChange/AfterTouch 16x128, Pitchbend 16 x all 65536 int16 values, SPP all 65536, SongSelect and MTC all 256, Tune; plus out-of-range grid channel {16,17,127,128,255} x data {128,129,200,254,255} x in-range partners {0,1,64,127}; oracle = independent MIDI 1.0 wire table (status nibble|channel, clamped 7-bit data, 14-bit LSB first), no data byte > 127 for any argument, matching accessor returns the (clamped) arguments, every other type-specific accessor of midi.Message and smf.Message (incl. all meta accessors) rejects, derived views by definition, and loopback through testdrv, directly behind a predecessor message of a rotating constructor kind on the same connection, delivers the same bytes (quick: every 16th tuple, thorough: all); non-trivial = some data argument != 0; tuples are distinct by construction",
+	"exhaustive: NoteOn/NoteOff/NoteOffVelocity/PolyAfterTouch/ControlChange over 16x128x128, ProgramChange/AfterTouch 16x128, Pitchbend 16 x all 65536 int16 values, SPP all 65536, SongSelect and MTC all 256, Tune; plus out-of-range grid channel {16,17,127,128,255} x data {128,129,200,254,255} x in-range partners {0,1,64,127}; oracle = independent MIDI 1.0 wire table (status nibble|channel, clamped 7-bit data, 14-bit LSB first), no data byte > 127 for any argument, matching accessor returns the (clamped) arguments, every other type-specific accessor of midi.Message and smf.Message (incl. all meta accessors) rejects, derived views by definition, every accessor also with each subset of nil out-parameters (the API fills only non-nil arguments), and loopback through testdrv, directly behind a predecessor message of a rotating constructor kind on the same connection, delivers the same bytes (quick: every 16th tuple, thorough: all); non-trivial = some data argument != 0; tuples are distinct by construction",
 	nil, func(c Case) (res ev.Result) {
 		res.Nontrivial = true
 		var lp *loop
@@ -399,3 +404,85 @@ func TestEnumConstructors(t *testing.T) {
 }
 
 func TestReplay(t *testing.T) { ev.ReplayAll(t) }
+
+// partialNil calls the matching accessor with every subset of nil out-parameters.
+func partialNil(c Case, m midi.Message, name string, want [3]int) string {
+	type acc3 func(a, b, c *uint8) bool
+	var f acc3
+	two := false
+	switch name {
+	case "NoteOn":
+		f = m.GetNoteOn
+	case "NoteOff":
+		f = m.GetNoteOff
+	case "PolyAfterTouch":
+		f = m.GetPolyAfterTouch
+	case "ControlChange":
+		f = m.GetControlChange
+	case "ProgramChange":
+		f, two = func(a, b, _ *uint8) bool { return m.GetProgramChange(a, b) }, true
+	case "AfterTouch":
+		f, two = func(a, b, _ *uint8) bool { return m.GetAfterTouch(a, b) }, true
+	case "Pitchbend":
+		for mask := 0; mask < 8; mask++ {
+			var ch uint8 = 0xEE
+			var rel int16 = 0x7EEE
+			var abs uint16 = 0xEEEE
+			var pc *uint8
+			var pr *int16
+			var pa *uint16
+			if mask&1 != 0 {
+				pc = &ch
+			}
+			if mask&2 != 0 {
+				pr = &rel
+			}
+			if mask&4 != 0 {
+				pa = &abs
+			}
+			if !m.GetPitchBend(pc, pr, pa) {
+				return fmt.Sprintf("%s%v: GetPitchBend rejects the message when called with nil pattern %03b", c.Ctor, []int{c.A, c.B}, mask)
+			}
+			if (pc != nil && int(ch) != want[0]) || (pr != nil && int(rel) != want[1]) || (pa != nil && int(abs) != want[2]) {
+				return fmt.Sprintf("%s%v: GetPitchBend with nil pattern %03b fills %d %d %d, want %v", c.Ctor, []int{c.A, c.B}, mask, ch, rel, abs, want)
+			}
+		}
+		return ""
+	default:
+		return ""
+	}
+	n := 8
+	if two {
+		n = 4
+	}
+	for mask := 0; mask < n; mask++ {
+		vals := [3]uint8{0xEE, 0xEE, 0xEE}
+		var ps [3]*uint8
+		for i := 0; i < 3; i++ {
+			if mask&(1<<i) != 0 {
+				ps[i] = &vals[i]
+			}
+		}
+		if !f(ps[0], ps[1], ps[2]) {
+			return fmt.Sprintf("%s%v: Get%s rejects the message when called with nil pattern %03b", c.Ctor, []int{c.A, c.B, c.C}, name, mask)
+		}
+		for i := 0; i < 3; i++ {
+			if ps[i] != nil && int(vals[i]) != want[i] {
+				return fmt.Sprintf("%s%v: Get%s called with nil pattern %03b fills argument %d with %d, want %d", c.Ctor, []int{c.A, c.B, c.C}, name, mask, i, vals[i], want[i])
+			}
+		}
+	}
+	// the derived views with nil arguments
+	if name == "NoteOn" || name == "NoteOff" {
+		var ch, key, vel uint8
+		startAll := m.GetNoteStart(&ch, &key, &vel)
+		endAll := m.GetNoteEnd(&ch, &key)
+		if m.GetNoteStart(nil, nil, nil) != startAll || m.GetNoteStart(&ch, nil, nil) != startAll || m.GetNoteStart(nil, &key, nil) != startAll || m.GetNoteStart(nil, nil, &vel) != startAll {
+			return fmt.Sprintf("%s%v: GetNoteStart answers differently when some out-parameters are nil", c.Ctor, []int{c.A, c.B, c.C})
+		}
+		if m.GetNoteEnd(nil, nil) != endAll || m.GetNoteEnd(&ch, nil) != endAll || m.GetNoteEnd(nil, &key) != endAll {
+			return fmt.Sprintf("%s%v: GetNoteEnd answers differently when some out-parameters are nil", c.Ctor, []int{c.A, c.B, c.C})
+		}
+	}
+	return ""
+}
